@@ -4,7 +4,7 @@ from world import oracles
 from world.gen import Profile
 from world.mq import MS
 from run import mqcase
-from .c01 import log_probes
+from .c01 import log_probes, feature_probes
 from .mqspec import MQSpec
 
 
@@ -43,4 +43,6 @@ class Spec(MQSpec):
         return oracles.check_c03(world)
 
     def probes(self, world):
-        return log_probes(world)
+        p = log_probes(world)
+        p.update(feature_probes(world))
+        return p
